@@ -14,6 +14,6 @@ CONSTANTS
   ProdScales <- AllProdScales
   FirstSeed = TRUE
   FreshMaps = FALSE
-INVARIANTS FactoryIndependent RegOneToOne UnknownIsError NameRoundTrip ScalarInRange ScalarMonotone ScalarShape ModuleDefinition
+INVARIANTS FactoryIndependent RegOneToOne UnknownIsError NameRoundTrip ScalarInRange ScalarMonotone ScalarShape ModuleDefinition ModuleAltDefinition
 PROPERTY FactoryStepLaw
 CHECK_DEADLOCK FALSE
